@@ -339,7 +339,12 @@ Inductive op :=
    other executions on the same Call included (f calling Exec itself, another
    goroutine). *)
 | OBegin (c : nat)
-| OEnd (x : nat) (e : bool).
+| OEnd (x : nat) (e : bool)
+(* scopes[s].Timer(n) on a cached reporter that refuses the allocation:
+   AllocateTimer panics, Timer panics, the caller recovers (as the Prometheus
+   reporter's callers must on a registration error).  Nothing is left behind:
+   no handle, no timer in the scope's table - the name can be requested again. *)
+| OTimerRefused (s : nat) (n : bytes).
 
 Definition step (sz : sanz) (fl : flavour) (clk : nat -> Z) (s : state) (o : op) : state :=
   match o with
@@ -449,6 +454,7 @@ Definition step (sz : sanz) (fl : flavour) (clk : nat -> Z) (s : state) (o : op)
           set_rets s3 (rets s3 ++ [e])
       | None => s
       end
+  | OTimerRefused _ _ => s
   end.
 
 Definition run (sz : sanz) (fl : flavour) (clk : nat -> Z) (root : bytes * tags) (ops : list op) : state :=
